@@ -307,6 +307,13 @@ def h_shapeop(ctx, op, shape, D, P, arg=None, cplx=False):
     ctx.eq(plain(x.data), X, '%s leaves its operand alone' % op)
 
 
+def h_param_sequence(ctx, op, shape, D, P, args):
+    """the same operation with a sequence of different parameters (k, axis, repetitions, new
+    shape) in ONE process: every call equals NumPy on every slice, whatever was called before"""
+    for a in list(args) + list(args)[:1]:
+        h_shapeop(ctx, op, shape, D, P, arg=a)
+
+
 def _tri(a, k, lower):
     a = np.array(a, dtype=object)
     n, m = a.shape
@@ -365,7 +372,7 @@ def units(tier, seed):
         out.append(Unit('C13/' + name, 'symx.props.c13', func, kw, oo))
 
     rng = random.Random(1234 + seed)
-    shapes = [(3,), (2, 3), (3, 2, 2)] if tier == 'quick' else [(3,), (2, 3), (3, 2, 2), (4,), (3, 3), (2, 2, 2, 2)]
+    shapes = [(3,), (2, 3), (3, 2, 2), (1, 3), (3, 1), (1,)] if tier == 'quick' else [(3,), (2, 3), (3, 2, 2), (4,), (3, 3), (2, 2, 2, 2), (1, 3), (3, 1), (1,), (1, 1)]
     n_idx = 50 if tier == 'quick' else 2500
     D, P = (2, 2)
     for shp in shapes:
@@ -393,7 +400,14 @@ def units(tier, seed):
     for shp, new in [((2, 3), (3, 2)), ((2, 3), (6,)), ((6,), (2, 3)), ((2, 2, 3), (4, 3)), ((2, 3), (-1,)), ((4,), (2, -1))]:
         add('reshape/%s->%s' % (shp, new), 'h_shapeop', op='reshape', shape=shp, D=D, P=P, arg=new)
         add('reshape-method/%s->%s' % (shp, new), 'h_shapeop', op='reshape-method', shape=shp, D=D, P=P, arg=new)
-    for shp in [(3,), (2, 3), (2, 3, 2), (1, 2)]:
+    add('tril with k = 0, -1, 1, 2 in sequence/(3, 3)', 'h_param_sequence', op='tril', shape=(3, 3), D=2, P=2, args=[0, -1, 1, 2])
+    add('triu with k = 0, 1, -1, -2 in sequence/(3, 3)', 'h_param_sequence', op='triu', shape=(3, 3), D=2, P=2, args=[0, 1, -1, -2])
+    add('tril with k = 1, 0 in sequence/(2, 3)', 'h_param_sequence', op='tril', shape=(2, 3), D=2, P=1, args=[1, 0, -1])
+    add('sum over axis 0, 1, None, -1 in sequence/(2, 3)', 'h_param_sequence', op='sum', shape=(2, 3), D=2, P=2, args=[0, 1, None, -1])
+    add('tile with reps 2, (2, 1), (1, 2), 3 in sequence/(2,)', 'h_param_sequence', op='tile', shape=(2,), D=2, P=2, args=[2, (2, 1), (1, 2), 3])
+    add('reshape to (3, 2), (6,), (1, 6) in sequence/(2, 3)', 'h_param_sequence', op='reshape', shape=(2, 3), D=2, P=2, args=[(3, 2), (6,), (1, 6)])
+    add('zeros with shapes (2,), (2, 2), (3,) in sequence', 'h_param_sequence', op='zeros', shape=(2,), D=2, P=2, args=[(2,), (2, 2), (3,)])
+    for shp in [(3,), (2, 3), (2, 3, 2), (1, 2), (2, 1), (1,), (1, 1)]:
         add('transpose/%s' % (shp,), 'h_shapeop', op='transpose', shape=shp, D=D, P=P)
         add('transpose-fn/%s' % (shp,), 'h_shapeop', op='transpose-fn', shape=shp, D=D, P=P)
         for ax in [None] + list(range(-len(shp), len(shp))):
